@@ -500,3 +500,99 @@ Proof.
   destruct (http_step B cfg allow s (rq, E)) as [[r s1] t]. specialize (IH s1).
   destruct (hrun B cfg allow s1 h) as [l s2]. cbn [fst] in *. constructor; assumption.
 Qed.
+
+(* ---- C10 as HTTP clients see it: the acceptance rule of add-snapshot ----
+   After ANY HTTP history, for a listed client c, a version id v and a well-formed snapshot body:
+   - a client the server has never seen: get-snapshot 404, add-snapshot 404, get-snapshot 404;
+   - otherwise add-snapshot answers 200 whatever it decides, and get-snapshot afterwards returns the new
+     upload (id v, exactly the uploaded bytes) when the rule of C10 accepts v against the versions accepted so
+     far and the snapshot version get-snapshot reported before — and exactly what it returned before when the
+     rule declines v.  (The corner v = non-nil chain base is left open here as in C10_snapshot_rule.) *)
+Definition as_req (c v : id) (cs : list chunk) : hreq := mkReq MPost (PAddSnapshot (IdOk v)) (COk c) CTSnapshot cs.
+Definition hsnap_of (r : hresp) : option id := if N.eqb (rs_status r) 200 then rs_version_id r else None.
+
+Theorem http_add_snapshot_rule_a cfg allow h c v cs E1 E2 E3 :
+  cfg_ok cfg -> client_id_header allow (COk c) = inl c -> body_refused cs = false ->
+  horacle_ok (h ++ [(gs_req c, E1)]) -> horacle_ok (h ++ [(as_req c v cs, E2); (gs_req c, E3)]) ->
+  let acc := accepted c (lib_of allow h) (aresponses cfg (lib_of allow h)) in
+  exists rs ra rs',
+    haresponses cfg allow (h ++ [(gs_req c, E1)]) = haresponses cfg allow h ++ [rs] /\
+    haresponses cfg allow (h ++ [(as_req c v cs, E2); (gs_req c, E3)]) = haresponses cfg allow h ++ [ra; rs'] /\
+    ((acc = [] /\ rs_status rs = 404 /\ (rs_status ra = 404 \/ rs_status ra = 200) /\ rs_status rs' = 404) \/
+     (ra = mkResp 200 None None None None [] true /\
+      ((v <> base_of acc \/ base_of acc = nil_id) ->
+       (accept_rule acc (hsnap_of rs) v -> rs' = mkResp 200 (Some v) None None (Some RTSnapshot) (body_of cs) true) /\
+       (~ accept_rule acc (hsnap_of rs) v -> rs' = rs)))).
+Proof.
+  intros Hcfg Hc Hb Hor1 Hor2 acc.
+  assert (HorH : horacle_ok h) by (apply horacle_ok_from_app in Hor1; tauto).
+  destruct (hstate_client cfg allow h c Hcfg HorH) as (W0 & _ & Hcl). fold acc in Hcl.
+  destruct (hreach_from cfg allow [] a_empty h Hcfg (Inv_empty []) HorH) as [HI _].
+  set (a := snd (hrun AStoreB cfg allow a_empty h)) in *. set (W := hused_after [] h) in *.
+  assert (HI0 := HI). destruct HI as (Hok & Hclinv & _).
+  apply horacle_ok_from_app in Hor1. destruct Hor1 as [_ [Hf1 _]]. fold W in Hf1.
+  apply horacle_ok_from_app in Hor2. destruct Hor2 as [_ [Hf2 [Hf3 _]]]. fold W in Hf2, Hf3.
+  assert (Hsvg : served (gs_req c)) by (unfold gs_req; constructor).
+  assert (Hsva : served (as_req c v cs)) by (unfold as_req; constructor; exact Hb).
+  assert (Hcidg : exists c0, rq_cid (gs_req c) = COk c0 /\ client_id_header allow (COk c0) = inl c0) by (exists c; auto).
+  assert (Hcida : exists c0, rq_cid (as_req c v cs) = COk c0 /\ client_id_header allow (COk c0) = inl c0) by (exists c; auto).
+  (* the three steps *)
+  destruct (hstep_reach cfg allow W a (gs_req c) E1 Hcfg HI0 Hf1) as (_ & _ & Ho1).
+  destruct (Ho1 Hsvg Hcidg) as (r1 & a1' & Hl1 & Hs1). clear Ho1.
+  destruct (hstep_reach cfg allow W a (as_req c v cs) E2 Hcfg HI0 Hf2) as (HI2 & _ & Ho2).
+  destruct (Ho2 Hsva Hcida) as (r2 & a2 & Hl2 & Hs2). clear Ho2.
+  rewrite Hs2 in HI2. cbn [snd] in HI2.
+  destruct (hstep_reach cfg allow _ a2 (gs_req c) E3 Hcfg HI2 Hf3) as (_ & _ & Ho3).
+  destruct (Ho3 Hsvg Hcidg) as (r3 & a3 & Hl3 & Hs3). clear Ho3.
+  exists (default_headers (encode r1)), (default_headers (encode r2)), (default_headers (encode r3)).
+  unfold haresponses. split; [|split].
+  - rewrite hrun_app_a. cbn [fst]. fold a. rewrite hrun_cons_a, Hs1. reflexivity.
+  - rewrite hrun_app_a. cbn [fst]. fold a. rewrite hrun_cons_a, Hs2. cbn [fst snd]. rewrite hrun_cons_a, Hs3. reflexivity.
+  - unfold lib_outcome, gs_req, as_req in Hl1, Hl2, Hl3. cbn [rq_method rq_path rq_cid rq_chunks] in Hl1, Hl2, Hl3.
+    rewrite gs_step in Hl1 by exact Hok. rewrite as_step in Hl2 by exact Hok.
+    injection Hl1 as Hr1 _. symmetry in Hr1.
+    destruct (a_cl a c) as [x|] eqn:Hxc.
+    + destruct Hcl as [Hv Hlat]. injection Hl2 as Hr2 Ha2. symmetry in Hr2, Ha2.
+      assert (Hok2 : a_ok a2 = true) by (destruct HI2; assumption).
+      rewrite gs_step in Hl3 by exact Hok2. injection Hl3 as Hr3 _. symmetry in Hr3.
+      right. split; [rewrite Hr2; reflexivity|]. intros Hbase.
+      pose proof (Hclinv c x Hxc) as Hci. rewrite <- Hv in Hbase.
+      pose proof (snapshot_rule_state W x v Hci Hbase) as Hrule. rewrite Hv in Hrule.
+      assert (Hsn : hsnap_of (default_headers (encode r1)) = snap_last x).
+      { rewrite Hr1. unfold snap_last. destruct (a_snap x) as [[m d0]|]; reflexivity. }
+      rewrite Hsn.
+      destruct (as_accepts x v) eqn:Hacc.
+      * split; [intros _|intros Hn; exfalso; apply Hn; apply Hrule; reflexivity].
+        rewrite Hr3, Ha2. unfold as_new_state. rewrite a_set_lookup, N.eqb_refl. reflexivity.
+      * split; [intros Hr; apply Hrule in Hr; discriminate|intros _].
+        rewrite Hr3, Ha2, Hr1, Hxc. reflexivity.
+    + injection Hl2 as Hr2 Ha2. symmetry in Hr2, Ha2. rewrite Ha2 in Hl3.
+      rewrite gs_step in Hl3 by exact Hok. rewrite Hxc in Hl3. injection Hl3 as Hr3 _. symmetry in Hr3.
+      left. rewrite Hr1, Hr2, Hr3. split; [exact Hcl|]. cbn. auto.
+Qed.
+
+Theorem http_add_snapshot_rule k cfg allow h c v cs E1 E2 E3 :
+  cfg_ok cfg -> client_id_header allow (COk c) = inl c -> body_refused cs = false ->
+  horacle_ok (h ++ [(gs_req c, E1)]) -> horacle_ok (h ++ [(as_req c v cs, E2); (gs_req c, E3)]) ->
+  let acc := accepted c (lib_of allow h) (responses k cfg (lib_of allow h)) in
+  exists rs ra rs',
+    hresponses k cfg allow (h ++ [(gs_req c, E1)]) = hresponses k cfg allow h ++ [rs] /\
+    hresponses k cfg allow (h ++ [(as_req c v cs, E2); (gs_req c, E3)]) = hresponses k cfg allow h ++ [ra; rs'] /\
+    ((acc = [] /\ rs_status rs = 404 /\ (rs_status ra = 404 \/ rs_status ra = 200) /\ rs_status rs' = 404) \/
+     (ra = mkResp 200 None None None None [] true /\
+      ((v <> base_of acc \/ base_of acc = nil_id) ->
+       (accept_rule acc (hsnap_of rs) v -> rs' = mkResp 200 (Some v) None None (Some RTSnapshot) (body_of cs) true) /\
+       (~ accept_rule acc (hsnap_of rs) v -> rs' = rs)))).
+Proof.
+  intros Hcfg Hc Hb Hor1 Hor2 acc.
+  assert (HorH : horacle_ok h) by (apply horacle_ok_from_app in Hor1; tauto).
+  assert (HolL : oracle_ok (lib_of allow h)) by (apply (lib_oracle allow h [] []); [auto|exact HorH]).
+  unfold acc. rewrite (responses_agree k cfg _ HolL).
+  rewrite (hresponses_agree k cfg allow _ Hcfg Hor1), (hresponses_agree k cfg allow _ Hcfg Hor2), (hresponses_agree k cfg allow _ Hcfg HorH).
+  apply (http_add_snapshot_rule_a cfg allow h c v cs E1 E2 E3 Hcfg Hc Hb Hor1 Hor2).
+Qed.
+
+(* ---- C13 as HTTP clients see it: the two backends answer every HTTP history alike ---- *)
+Theorem http_backends_agree cfg allow h : cfg_ok cfg -> horacle_ok h ->
+  hresponses BInMem cfg allow h = hresponses BSqlite cfg allow h.
+Proof. intros Hcfg Hor. rewrite !(hresponses_agree _ cfg allow h Hcfg Hor). reflexivity. Qed.
